@@ -10,15 +10,18 @@ open Hex Hex.X Hex.Xcmp Hex.IAm Hex.Asm
 /-! ### Well-formedness of an activation at any stack pointer, from the lowest one -/
 
 theorem wfs_shift (G : GCtx) (pi : PInfo) (dep0 dep : Nat) (hi0 hi : Nat → Word) (exitJ : Nat)
-    (wf0 : (KOf G pi G.lo dep0 hi0).WFS exitJ)
+    (wf0 : (KOf G.noArr pi G.lo dep0 hi0).WFS exitJ)
     (E1 : ∀ n sym a, G.cg.tbl.lookup pi.p.name n = .ok sym → sym.scope = "" → G.locOf pi G.lo n = some a → a < G.lo)
     (E2 : ∀ n sym, G.cg.tbl.lookup pi.p.name n = .ok sym → located sym = true → sym.scope ≠ "" →
       sym.stackOffset ≤ (pi.po : Int) + pi.p.formals.length)
     (code_lo : ∀ w, G.lo ≤ w → G.env.isCode w = false) (top : G.spv + 2 < memWords) (lo_ge : 2 ≤ G.lo)
+    (arr_hi : ∀ id, G.asize id ≠ 0 → G.spv + 2 < G.abase id ∧ G.abase id + G.asize id ≤ memWords)
+    (arr_disj : ∀ id1 id2, id1 ≠ id2 → G.asize id1 ≠ 0 → G.asize id2 ≠ 0 →
+      G.abase id1 + G.asize id1 ≤ G.abase id2 ∨ G.abase id2 + G.asize id2 ≤ G.abase id1)
+    (lo_spv : G.lo ≤ G.spv)
     (sp : Nat) (hlo : G.lo ≤ sp) (hact : sp + G.S pi + pi.po + pi.p.formals.length ≤ G.spv + 1) :
     (KOf G pi sp dep hi).WFS exitJ := by
   have hpo := po_pos pi
-  have loc0 : ∀ n a, (KOf G pi G.lo dep0 hi0).loc n = some a ↔ G.locOf pi G.lo n = some a := fun _ _ => Iff.rfl
   exact {
     nodup := wf0.nodup
     var_global := by
@@ -136,7 +139,37 @@ theorem wfs_shift (G : GCtx) (pi : PInfo) (dep0 dep : Nat) (hi0 hi : Nat → Wor
       refine ⟨?_, code_lo _ (by show G.lo ≤ sp + 2; omega)⟩
       show sp + 2 < memWords
       unfold memWords at *
-      omega }
+      omega
+    arr_hi := by
+      intro id hz
+      have := arr_hi id hz
+      exact ⟨by show sp + G.S pi < G.abase id; omega, this.2⟩
+    arr_disj := arr_disj
+    arr_code := by
+      intro id k hk
+      have hk' : k < G.asize id := hk
+      have := arr_hi id (by omega)
+      exact code_lo _ (by show G.lo ≤ G.abase id + k; omega)
+    loc_na := by
+      intro n a hloc
+      have hloc' : G.locOf pi sp n = some a := hloc
+      intro ⟨id, h1, h2⟩
+      have h1' : G.abase id ≤ a := h1
+      have h2' : a < G.abase id + G.asize id := h2
+      have hb := arr_hi id (by omega)
+      rcases G.locOf_cases pi sp n a hloc' with ⟨sym', hl', hs', hall⟩ | ⟨sym', c, hl', hs', hc, ha, hall⟩
+      · have := E1 n sym' a hl' hs' (hall G.lo)
+        omega
+      · have hlocd : located sym' = true := by
+          have := hall sp
+          unfold GCtx.locOf at this
+          rw [hl'] at this
+          simp only at this
+          by_cases h : located sym' = true
+          · exact h
+          · rw [if_neg h] at this; simp at this
+        have hb2 := E2 n sym' hl' hlocd hs'
+        omega }
 
 /-! ### The program context of a compilation -/
 
@@ -282,7 +315,12 @@ theorem ok_of_checks (G : GCtx) (imgWords : Nat)
       genStmt (G.ctxOf pi) (optStmt (annotS (fun _ => none) pi.p.body)) pi.gs1 = .ok (pi.code, pi.gs2))
     (hbeyond : ∀ w, imgWords ≤ w → G.env.isCode w = false) (hcode1 : G.env.isCode 1 = false)
     (resolve : ∀ f p, G.xc.genv.lookup f = some (.proc p) → ∃ pi ∈ G.procs, pi.p = p ∧ p.name = f)
-    (genv_vars : ∀ n, n ∈ G.gnames ↔ G.xc.genv.lookup n = some .var)
+    (genv_vars : ∀ n, G.xc.genv.lookup n = some .var → n ∈ G.gnames)
+    (genv_arrs : ∀ n id, G.xc.genv.lookup n = some (.array id) → n ∈ G.gnames)
+    (gnames_genv : ∀ n ∈ G.gnames, G.xc.genv.lookup n = some .var ∨ ∃ id, G.xc.genv.lookup n = some (.array id))
+    (arr_hi : ∀ id, G.asize id ≠ 0 → G.spv + 2 < G.abase id ∧ G.abase id + G.asize id ≤ memWords)
+    (arr_disj : ∀ id1 id2, id1 ≠ id2 → G.asize id1 ≠ 0 → G.asize id2 ≠ 0 →
+      G.abase id1 + G.asize id1 ≤ G.abase id2 ∨ G.abase id2 + G.asize id2 ≤ G.abase id1)
     (no_vals : ∀ n w, G.xc.genv.lookup n ≠ some (.val w))
     (pnames_ok : ∀ f p, G.xc.genv.lookup f = some (.proc p) → f ∈ G.pnames)
     (pnames_mem : ∀ f ∈ G.pnames, ∃ p, G.xc.genv.lookup f = some (.proc p))
@@ -338,9 +376,11 @@ theorem ok_of_checks (G : GCtx) (imgWords : Nat)
     rw [hl] at this
     simp only [hloc, hs, ne_eq, not_false_eq_true, decide_true, Bool.and_self, if_true, decide_eq_true_eq] at this
     exact this
-  have wf0 : ∀ pi ∈ G.procs, (KOf G pi G.lo 0 noHi).WFS (G.iEpi pi) := by
+  have wf0 : ∀ pi ∈ G.procs, (KOf G.noArr pi G.lo 0 noHi).WFS (G.iEpi pi) := by
     intro pi hpi
-    exact wfsCheck_sound _ _ G.names (fun n a h => locOf_names G pi G.lo n a h) (hpc pi hpi).1.1
+    have hck : wfsCheck (KOf G.noArr pi G.lo 0 noHi) (G.iEpi pi) G.names = wfsCheck (KOf G pi G.lo 0 noHi) (G.iEpi pi) G.names := rfl
+    exact wfsCheck_sound _ _ G.names (fun n a h => locOf_names G pi G.lo n a h) (PCtx.arrOK_of_none _ (fun _ => rfl))
+      (hck.trans (hpc pi hpi).1.1)
   have hconst : ∀ v l j k, (v, l) ∈ G.consts → G.env.ds[j]? = some (.label k l) →
       G.env.ds[j + 1]? = some (.data v) ∧ 2 ≤ G.env.addr j / 4 ∧ G.env.addr j / 4 < G.lo := by
     intro v l j k hm hd
@@ -352,7 +392,7 @@ theorem ok_of_checks (G : GCtx) (imgWords : Nat)
     exact ⟨this.1.1, this.1.2, this.2⟩
   exact {
     wfs := fun pi hpi sp dep hi hlo hact =>
-      wfs_shift G pi 0 dep noHi hi (G.iEpi pi) (wf0 pi hpi) (fun n sym a h1 h2 h3 => (E1 pi hpi n sym a h1 h2 h3).1) (E2 pi hpi) code_lo g4 g5 sp hlo hact
+      wfs_shift G pi 0 dep noHi hi (G.iEpi pi) (wf0 pi hpi) (fun n sym a h1 h2 h3 => (E1 pi hpi n sym a h1 h2 h3).1) (E2 pi hpi) code_lo g4 g5 arr_hi arr_disj (by have := g6; omega) sp hlo hact
     nodup := g1
     at_pro := fun pi hpi => atB_sound _ _ _ (hpc pi hpi).1.2.2.2.1
     at_body := fun pi hpi => atB_sound _ _ _ (hpc pi hpi).1.2.2.2.2.1
@@ -379,6 +419,10 @@ theorem ok_of_checks (G : GCtx) (imgWords : Nat)
         simp only [decide_eq_true_eq] at this
         exact ⟨sym, rfl, this⟩
     genv_vars := genv_vars
+    genv_arrs := genv_arrs
+    gnames_genv := gnames_genv
+    arr_hi := arr_hi
+    arr_disj := arr_disj
     no_vals := no_vals
     pnames_ok := pnames_ok
     pnames_mem := pnames_mem
@@ -571,6 +615,22 @@ theorem v2_genv_vars (hnd : (P.globals.map X.Decl.name ++ P.procs.map (·.name))
       simp at h2
 
 theorem v2_no_vals (n : String) (w : Word) : (v2Xc P fuel).genv.lookup n ≠ some (.val w) := by
+  rw [v2_genv_lookup]
+  intro h
+  cases hg : (P.globals.map fun d => (d.name, GBind.var)).lookup n with
+  | some b =>
+    rw [hg] at h
+    obtain ⟨_, _, _, h2⟩ := lookup_map_val _ _ _ _ _ hg
+    simp only [Option.some_or, Option.some.injEq] at h
+    rw [h] at h2
+    simp at h2
+  | none =>
+    rw [hg] at h
+    simp only [Option.none_or] at h
+    obtain ⟨_, _, _, h2⟩ := lookup_map_val _ _ _ _ _ h
+    simp at h2
+
+theorem v2_no_arrs (n : String) (id : Nat) : (v2Xc P fuel).genv.lookup n ≠ some (.array id) := by
   rw [v2_genv_lookup]
   intro h
   cases hg : (P.globals.map fun d => (d.name, GBind.var)).lookup n with
@@ -929,7 +989,18 @@ theorem v_setup (pk : Bool) (P : X.Program) (st : Stages) (img : Image) (inp : X
       exact ⟨pi, by rw [hGprocs]; exact hpi, hpp, hn⟩
     · intro n
       rw [hGxc, hGg]
-      exact v2_genv_vars P fuel hnd n
+      exact (v2_genv_vars P fuel hnd n).mpr
+    · intro n id h
+      rw [hGxc] at h
+      exact absurd h (v2_no_arrs P fuel n id)
+    · intro n hn
+      rw [hGg] at hn
+      rw [hGxc]
+      exact Or.inl ((v2_genv_vars P fuel hnd n).mp hn)
+    · intro id hz
+      exact absurd (by rw [hG]; rfl) hz
+    · intro id1 id2 _ hz
+      exact absurd (by rw [hG]; rfl) hz
     · intro n w
       rw [hGxc]
       exact v2_no_vals P fuel n w
@@ -973,10 +1044,15 @@ theorem v_setup (pk : Bool) (P : X.Program) (st : Stages) (img : Image) (inp : X
       rw [hmap, hfind] at h1
       exact (Option.some.inj h1).symm
     have hg0 : GRep G (v2St0 P inp) (Am.boot img).mem := by
-      refine ⟨?_, ?_⟩
+      refine ⟨?_, ?_, ?_, ?_⟩
       · intro n w _ hl
         have := lookup_map_const _ _ _ _ _ hl
         simp at this
+      · intro n id h
+        rw [hGxc] at h
+        exact absurd h (v2_no_arrs P fuel n id)
+      · intro id cells h
+        simp [v2St0] at h
       · intro v l j k hmem hd
         have hdat := ok.const_data v l j k hmem hd
         obtain ⟨_, hval, _⟩ := hdata (j + 1) v hdat
